@@ -120,4 +120,17 @@ CLAIMS['C08'] = dict(
     note=('relative to: clang-14 lowering, STIR, C05 (storage of size()+1 units terminated at size()), C07 for the meaning of the index '
           'returned by find/find_last; which bytes a trim removes (membership in the set) is delegated to find_cs'),
     technique='static analysis: abstract interpretation with free scalars at full range (linear terms + intervals), oracle clamp formula, witness search')
+CLAIMS['C06'] = dict(
+    level='proof',
+    text=('The comparison cores (buffer<T>::compare for 4 element types, compare_ci) are interpreted with both sizes free over 64 bits '
+          'and the prefix comparator as an opaque three-valued symbol: in all 9 (comparator sign x size order) cases the result is the '
+          'comparator verdict, else has the sign of the size difference (concrete witnesses otherwise, e.g. lengths 0 and 2^32), and the '
+          'prefix length is min(lsize,rsize); the maxlen forms clamp and delegate. The ASCII fold maps are compared class by class with '
+          'A-Z<->a-z; an SSA rule keeps unfolded units out of compare_ci / find_ci / hash_i; compare_ci\'s step (one folded unit each side, '
+          'difference iff different) and the 16 derived members / operators (core on (data,size) of both operands, right predicate, null '
+          'const char* = empty, no read past a C string\'s NUL) are checked by interpretation.'),
+    note=('relative to: clang-14 lowering, STIR, std::char_traits<T>::compare being unsigned lexicographic (libstdc++); antisymmetry and '
+          'transitivity follow from the lexicographic structure and are not mechanised separately; hash equality for equal strings follows from '
+          'hash being a function of the bytes [0,size) only (C04/C20 effects)'),
+    technique='static analysis: abstract interpretation with opaque comparator symbol and full-range sizes, exhaustive sign-case analysis, SSA taint rule')
 NOT_APPLICABLE = {}
